@@ -87,7 +87,7 @@ let show_out (o : out) : string =
   | RVal (Some v) -> "v:" ^ enc_bytes v
   | RNil -> "nil"
   | RFlagsOf None -> "notfound"
-  | RFlagsOf (Some f) -> "f:" ^ dec_of_n f
+  | RFlagsOf (Some f) -> "f:" ^ dec_of_n f ^ ":" ^ dec_of_n (preds_word f)
   | RKVs l -> "kv:" ^ String.concat "," (List.map (fun (k, v) -> enc_bytes k ^ "=" ^ enc_bytes v) l)
   | RKFVs l -> "kfv:" ^ String.concat "," (List.map (fun ((k, f), v) ->
         enc_bytes k ^ "/" ^ dec_of_n f ^ "=" ^ (match v with Some v -> enc_bytes v | None -> "~")) l)
